@@ -104,6 +104,12 @@ def jobs(tier, seed):
                       {"shapes": [F([S(1), O(1, [(2, []), (1, [])]), R([S(1), S(1)])]), F([S(1)])],
                        "opts": {"select": True, "stop": "sym", "dry_run": "sym", "out_dom": {"*": [0, 1]}, "undef": False}, "checks": base},
                       reach=["C01.verdict==RunSpec"], min_paths=100, cost=800, validate=2000))
+    # hooks wrapped with the documented @capture decorator: a raising hook still fails the run
+    js.append(Job("captured-hooks", "vlib.stage1:h_stage1",
+                  {"shapes": [F([S(1, tags=["t1"]), S(1)])],
+                   "opts": {"hooks": True, "fault": True, "capture_decorated_hooks": True, "out_dom": {"*": [0, 1]}, "undef": False},
+                   "checks": ["verdict"]},
+                  reach=["C01.no-false-green(events)"], min_paths=20, cost=300, validate=100))
     # steps that run sub-steps through context.execute_steps(): a failing sub-step fails its caller and the run
     js.append(Job("nested-steps", "vlib.stage1:h_stage1",
                   {"shapes": [F([S(2), S(1)])],
